@@ -42,7 +42,7 @@ fn run_c06(args: &Args) -> i32 {
     closed_stream.shard = 100;
     let plant = std::env::var("HX_C06_PLANT").unwrap_or_default();
     let mut rng = Rng::new(args.seed);
-    let nhist = args.vol(8, 60);
+    let nhist = args.vol(8, 40);
     for h in 0..nhist {
         let mut r = rng.fork();
         let stable = r.chance(1, 2);
